@@ -185,6 +185,8 @@ def generate(seed, tier="quick", faults=True):
     cmeta = []
     ops = []
     nops = gen.randrange(6, 26)
+    if stream(seed, "size").random() < (0.2 if tier == "thorough" else 0.03):
+        nops = gen.randrange(40, 81)  # a long history: many entries, many restarts
     interface = gen.random() < 0.34
     use_forks = gen.random() < (0.05 if tier == "thorough" else 0.03)
 
